@@ -1,9 +1,9 @@
-\* thorough: two readers, one writer, 2 keys and a nested bucket
+\* explicit cursors of the writer and of a reader over two keys of which one is durable or cached and the other cached or pending (direction changes across the two sources)
 INIT Init
 NEXT Next
 CONSTANTS
   KeyOrder <- K2
-  ValSet <- V2
+  ValSet <- V1
   NameOrder <- N1
   MaxDepth = 1
   BlockOrder <- B0
@@ -11,18 +11,18 @@ CONSTANTS
   Limit = 186
   PruneTarget = 186
   MaxTx = 2
-  MaxOps = 2
-  Readers <- R2
-  MaxReads = 2
+  MaxOps = 1
+  Readers <- R1
+  MaxReads = 1
   MaxFaults = 0
   CrashMode = "none"
   PowerLoss = FALSE
   MaxCrash = 0
   FlushModes <- FlushBoth
   AllowRestart = FALSE
-  MaxCur = 0
-  PutPaths <- AllPaths
+  MaxCur = 4
+  PutPaths <- Nested
   CurSeeks = FALSE
-  BucketOps = TRUE
-  PreBuckets <- NoPaths
+  BucketOps = FALSE
+  PreBuckets <- PreA
 INVARIANTS TypeOK Disjoint Atomicity Isolation PrefixDurability ReopenOK
